@@ -131,6 +131,17 @@ CHECKS = {
         note="No parallel bonds / self loops; _edge_match's type rules beyond the statement are only exercised where every rule is satisfied.",
         technique="bounded-exhaustive enumeration + random graph generation against independent reference algorithms",
     ),
+    "C16": dict(
+        category="exploration",
+        text="Molecules grown atom by atom from tetrahedral / trigonal templates (non-degenerate by construction; target neighbour-count class drawn first; formal charges, "
+             "radicals, multiple / aromatic bonds, hints, metal / halogen bystanders; random, as-built and exactly-z-aligned orientations) and every labelled fragment of the bundled "
+             "CDXML files go through add_implicit_hydrogens. Oracle: before/after snapshots (atoms, bonds, coordinates, charges untouched), every new atom is a singly bonded H on a "
+             "group 13-16 atom, per-centre count from the harness' own valence table or the hint, X-H distance, finite coordinates, direction away from the neighbour centroid, "
+             "idempotence on hint-free molecules. The (neighbours x hydrogens) class histogram is reported.",
+        design_ref="DESIGN.md section 5, C16",
+        note="Collinear neighbour pairs are not generated; direction not asserted for centres bonded to CoordinationCenter atoms (ignored by the placement code on purpose); hints <= free valence.",
+        technique="property-based testing with a class-directed constructive generator and an independent valence calculation",
+    ),
     "C02": dict(
         category="exploration",
         text="Bounded-exhaustive (all op sequences up to length 4/5 over a 14-letter alphabet on two raw UKVFile handles) plus random "
